@@ -3,7 +3,7 @@
  * commands with hostile fields, raw frames and tun frames are delivered to the real server loop
  * (ASan+UBSan build, forwarding on, IPv4+IPv6 sockets) in each of six session states, singly and
  * in all ordered pairs of class representatives.  After every datagram: no sanitizer report,
- * server still in select(), no wall-clock overrun; after every batch a pre-established other
+ * server still in select(), no CPU-time overrun; after every batch a pre-established other
  * session completes a ping, an upstream packet and a downstream packet.
  * ./C05 --tier quick|thorough                                          DESIGN.md 2, C05 */
 #include <ctype.h>
@@ -52,7 +52,7 @@ static void on_san(const char *sig)
 static void on_alarm(int sig)
 {
 	(void)sig;
-	viol("not-processed-in-bounded-time", "state '%s': the server did not return to select() within 20 s of wall-clock time after: %s", STATE_DESC[cur_state], cur_desc);
+	viol("not-processed-in-bounded-time", "state '%s': the server did not return to select() within 20 s of its own CPU time after: %s", STATE_DESC[cur_state], cur_desc);
 	_exit(0);
 }
 
@@ -228,13 +228,13 @@ static void boot(int state)
 	}
 	adv_clear();
 	W.hooks.on_sanitizer = on_san;
-	signal(SIGALRM, on_alarm);
+	signal(SIGPROF, on_alarm);
 }
 
 /* ---------------------------------------------------------------- families */
 static const struct sockaddr_storage *SRCS[3];
 static long batch;
-static void tick(void) { if ((++batch & 127) == 0) { alarm(20); health_probe(); } }
+static void tick(void) { if ((++batch & 127) == 0) { hc_cpu_alarm(20); health_probe(); } }
 
 static int seed_queries(unsigned char out[][700], int *lens, const char **names)
 {
@@ -528,7 +528,7 @@ static void job(int j)
 	int state = j / NFAM, fam = j % NFAM;
 	boot(state);
 	batch = 0;
-	alarm(20);
+	hc_cpu_alarm(20);
 	switch (fam) {
 	case 0: fam_dns_truncations(); break;
 	case 1: case 2: case 3: fam_dns_substitutions(fam - 1, 3); break;
@@ -540,9 +540,9 @@ static void job(int j)
 	case 10: fam_tun(); fam_tun_big(); break;
 	case 11: fam_pairs(); break;
 	}
-	alarm(20);
+	hc_cpu_alarm(20);
 	health_probe();
-	alarm(0);
+	hc_cpu_alarm(0);
 	xp_outcome(((uint64_t)state << 32) ^ ((uint64_t)fam << 24) ^ (uint64_t)(XS->counters[K_ANSWERED] & 0xffff));
 	if (state == 2) xp_sample("family '%s' in state '%s': last datagram '%s'", FAM_DESC[fam], STATE_DESC[state], cur_desc);
 	__atomic_fetch_add(&XS->execs, 1, __ATOMIC_RELAXED);
